@@ -159,10 +159,20 @@ def run(ix, R):
         R.error('1.closure', 'EFF', SM, 'the model call-graph closure is found', 'only %d functions' % len(reach))
     used = {}
     nsites = 0
+    from sa.helpers import known_functions
+    known = known_functions()
+
+    def owner(f):
+        # a function that is new to the reviewed tree (an extracted helper) is licensed as part of the
+        # reviewed function it is reached from
+        cur = f
+        while cur is not None and known is not None and cur.site not in known:
+            cur = reach.get(id(cur.node), (None, None))[1]
+        return cur or f
     for k, (f, par) in sorted(reach.items(), key=lambda kv: kv[1][0].site):
         for node, nm, axis in mixing_sites(f):
             nsites += 1
-            key = (f.qualname, nm, axis)
+            key = (owner(f).qualname, nm, axis)
             lic = LICENCE.get(key)
             used[key] = used.get(key, 0) + 1
             if lic is not None and used[key] <= lic[0]:
